@@ -15,7 +15,8 @@ import (
 )
 
 var scaleFactors = []string{"2147483648", "18446744073709551617", "1000000000000000000000000000000", "9223372036854775807",
-	"1099511627776", "4503599627370496", "1000000000000000", "36028797018963968", "281474976710656", "9223372036854775808", "18446744073709551616"} // incl. factors that keep the amount below 2^63 while amount x numerator exceeds it
+	"1099511627776", "4503599627370496", "1000000000000000", "36028797018963968", "281474976710656", "9223372036854775808", "18446744073709551616",
+	"1152921504606846976", "2305843009213693952", "4611686018427387904", "3074457345618258603"} // 2^60 .. 2^62, (2^64-1)/6: small multiples on both sides of 2^63 and 2^64 // incl. factors that keep the amount below 2^63 while amount x numerator exceeds it
 
 // vh allot-scale <seed> <n> <small-trace.ndjson> <scale.ndjson>
 func cmdAllotScale(args []string) {
